@@ -7,6 +7,9 @@ use std::fmt::Write;
 #[derive(Debug, Clone, Copy)]
 pub enum N {
     Int(i64),
+    /// an integer above i64::MAX (invariant: the value does not fit `Int`); documents can hold
+    /// such numbers (serde_json stores them as u64), query literals cannot
+    Big(u64),
     Float(f64),
 }
 
@@ -33,12 +36,17 @@ pub fn num_cmp(a: N, b: N) -> Option<Ordering> {
     match (a, b) {
         (N::Int(x), N::Int(y)) => Some(x.cmp(&y)),
         (N::Float(x), N::Float(y)) => x.partial_cmp(&y),
-        (N::Int(x), N::Float(y)) => int_float_cmp(x, y),
-        (N::Float(x), N::Int(y)) => int_float_cmp(y, x).map(|o| o.reverse()),
+        (N::Int(x), N::Float(y)) => int_float_cmp(x as i128, y),
+        (N::Float(x), N::Int(y)) => int_float_cmp(y as i128, x).map(|o| o.reverse()),
+        (N::Big(x), N::Big(y)) => Some(x.cmp(&y)),
+        (N::Big(_), N::Int(_)) => Some(Ordering::Greater),
+        (N::Int(_), N::Big(_)) => Some(Ordering::Less),
+        (N::Big(x), N::Float(y)) => int_float_cmp(x as i128, y),
+        (N::Float(x), N::Big(y)) => int_float_cmp(y as i128, x).map(|o| o.reverse()),
     }
 }
 
-fn int_float_cmp(i: i64, f: f64) -> Option<Ordering> {
+fn int_float_cmp(i: i128, f: f64) -> Option<Ordering> {
     if f.is_nan() {
         return None;
     }
@@ -48,16 +56,16 @@ fn int_float_cmp(i: i64, f: f64) -> Option<Ordering> {
     if f == f64::NEG_INFINITY {
         return Some(Ordering::Greater);
     }
-    // |f| < 2^63 check; beyond that the float dominates
-    if f >= 9.3e18 {
+    // |f| < 2^65 check; beyond that the float dominates (integers here are below 2^64)
+    if f >= 3.7e19 {
         return Some(Ordering::Less);
     }
-    if f <= -9.3e18 {
+    if f <= -3.7e19 {
         return Some(Ordering::Greater);
     }
     let fl = f.floor();
-    let fi = fl as i128; // exact: |fl| < 2^64 and integral
-    let ii = i as i128;
+    let fi = fl as i128; // exact: |fl| < 2^66 and integral
+    let ii = i;
     match ii.cmp(&fi) {
         Ordering::Equal => {
             if f > fl {
@@ -74,14 +82,19 @@ impl N {
     pub fn as_f64(self) -> f64 {
         match self {
             N::Int(i) => i as f64,
+            N::Big(u) => u as f64,
             N::Float(f) => f,
         }
+    }
+    pub fn is_integer_typed(self) -> bool {
+        matches!(self, N::Int(_) | N::Big(_))
     }
     /// true when |value| <= 2^53-1 (I-JSON exact range) or the value is a float that is not an
     /// integer beyond that range; used by the "unsettled U2" zone
     pub fn in_exact_range(self) -> bool {
         match self {
             N::Int(i) => i.unsigned_abs() <= 9007199254740991,
+            N::Big(_) => false,
             N::Float(f) => f.is_finite() && f.abs() <= 9007199254740991.0,
         }
     }
@@ -116,6 +129,10 @@ impl J {
     }
     pub fn float(f: f64) -> J {
         J::Num(N::Float(f))
+    }
+    /// an unsigned integer; values up to i64::MAX are ordinary `Int`s
+    pub fn uint(u: u64) -> J {
+        if u <= i64::MAX as u64 { J::Num(N::Int(u as i64)) } else { J::Num(N::Big(u)) }
     }
     pub fn str(s: &str) -> J {
         J::Str(s.to_string())
@@ -205,7 +222,7 @@ impl J {
                 if let Some(i) = n.as_i64() {
                     J::Num(N::Int(i))
                 } else if let Some(u) = n.as_u64() {
-                    J::Num(N::Float(u as f64))
+                    J::Num(N::Big(u))
                 } else {
                     J::Num(N::Float(n.as_f64().unwrap_or(f64::NAN)))
                 }
@@ -222,6 +239,7 @@ impl J {
             J::Null => V::Null,
             J::Bool(b) => V::Bool(*b),
             J::Num(N::Int(i)) => V::Number((*i).into()),
+            J::Num(N::Big(u)) => V::Number((*u).into()),
             J::Num(N::Float(f)) => serde_json::Number::from_f64(*f).map(V::Number).unwrap_or(V::Null),
             J::Str(s) => V::String(s.clone()),
             J::Arr(a) => V::Array(a.iter().map(|c| c.to_value()).collect()),
@@ -242,6 +260,9 @@ impl J {
             }
             J::Num(N::Int(i)) => {
                 let _ = write!(out, "{}", i);
+            }
+            J::Num(N::Big(u)) => {
+                let _ = write!(out, "{}", u);
             }
             J::Num(N::Float(f)) => {
                 if f.is_finite() {
